@@ -223,7 +223,7 @@ def await_ready_block(body, fut_local, max_hops=12):
     return None
 
 
-def expr_of(body, op, depth=0, max_depth=12):
+def expr_of(body, op, depth=0, max_depth=30):
     """Symbolic expression tree of an operand by walking single-definition temporaries:
        ('const', int|str) | ('arg', n, proj...) | ('place', local, proj-names...) |
        ('bin', op, a, b) | ('un', op, a) | ('cast', ty, a) | ('call', fn, [args...]) | ('agg', adt/variant, [ops]) | ('?',)
